@@ -1,6 +1,6 @@
 """C11 -- marginal queries (structural clauses)."""
 from ..core import Ctx, Ob, PropSpec
-from ..rules import r4lite, r8
+from ..rules import r4, r4lite, r8
 
 EXPFAM = "cirkit.backend.torch.layers.input.TorchExpFamilyLayer"
 
@@ -11,6 +11,8 @@ def run(ctx: Ctx) -> list[Ob]:
         ctx, EXPFAM, "log_partition_function", 3, "(F, 1, K) -- IntegrateQuery._layer_fn selects it against the (F, B, K) layer output with torch.where"
     )
     obs += r8.run_guards(ctx, [g for g in r8.GUARDS_QUERIES if "IntegrateQuery" in g.func])
+    obs += r4.layer_contracts(ctx, {"R4c"})
+    obs += r4.query_contracts(ctx, {"integrate"})
     return obs
 
 
@@ -22,9 +24,12 @@ SPEC = PropSpec(
         "torch layers yields a rank-3 tensor (F, 1, K) -- the value IntegrateQuery._layer_fn broadcasts against the (F, B, K) layer "
         "output; a rank-2 (F, K) path aligns folds with the batch; rank is inferred from allocation size tuples, the tuple property "
         "the constructor validates a parameter against, reductions with dim and unsqueeze/squeeze; R8: the query-side guards of "
-        "IntegrateQuery (__init__, __call__, scopes_to_mask, _layer_fn) fire under every valuation."
+        "IntegrateQuery (__init__, __call__, scopes_to_mask, _layer_fn) fire under every valuation; R4c / R4q (symbolic shape interpretation of the source, nothing "
+        "executed): log_partition_function() and integrate() of every exponential-family layer return (F, 1, Ko) in every "
+        "parameterisation, and IntegrateQuery._layer_fn applied to every concrete input layer with a mask of batch 1 or B returns "
+        "(F, B, Ko) -- the torch.where selection broadcasts for every batch and fold size, not only when they coincide."
     ),
     not_decided="numerical equality with the symbolic integrate; the mask arithmetic of _layer_fn.",
     run=run,
-    floors={"R4": 4, "R8": 6},
+    floors={"R4": 4, "R8": 6, "R4c": 10, "R4q": 10},
 )
